@@ -57,9 +57,10 @@ fn round_trip<S: Crystal>(s: &S, at: &str, step: u64, viol: &mut Vec<Violation>)
     Ok(Some(back))
 }
 
-/// parse `<use ... href="#mol" ... transform="matrix(a b c d e f)" .../>` entries
-pub fn svg_mol_uses(svg: &str) -> Result<Vec<[f64; 6]>, String> {
-    let mut out = vec![];
+/// every `<use ... href="#id" ... transform="matrix(a b c d e f)" .../>` of the document, grouped by
+/// the element referred to (the tool is free to name and arrange its definitions as it likes)
+pub fn svg_uses(svg: &str) -> Result<Vec<(String, Vec<[f64; 6]>)>, String> {
+    let mut out: Vec<(String, Vec<[f64; 6]>)> = vec![];
     let mut rest = svg;
     while let Some(p) = rest.find("<use") {
         let tail = &rest[p..];
@@ -67,16 +68,20 @@ pub fn svg_mol_uses(svg: &str) -> Result<Vec<[f64; 6]>, String> {
         let tag = &tail[..end];
         rest = &tail[end..];
         let attr = |name: &str| -> Option<&str> {
-            let key = format!("{}=\"", name);
+            // (attribute names are matched after a blank so that "href" does not match "xlink:href")
+            let key = format!(" {}=\"", name);
             let s = tag.find(&key)? + key.len();
             let e = tag[s..].find('"')? + s;
             Some(&tag[s..e])
         };
-        let href = attr("href").or_else(|| attr("xlink:href"));
-        if href != Some("#mol") {
-            continue;
-        }
-        let tr = attr("transform").ok_or("<use href=#mol> without transform")?;
+        let href = match attr("href").or_else(|| attr("xlink:href")) {
+            Some(h) => h.to_string(),
+            None => continue,
+        };
+        let tr = match attr("transform") {
+            Some(t) => t,
+            None => continue,
+        };
         let inner = tr.trim().strip_prefix("matrix(").and_then(|x| x.strip_suffix(')')).ok_or(format!("unrecognised transform {}", tr))?;
         let nums: Vec<f64> = inner
             .split(|c: char| c == ' ' || c == ',')
@@ -86,47 +91,26 @@ pub fn svg_mol_uses(svg: &str) -> Result<Vec<[f64; 6]>, String> {
         if nums.len() != 6 {
             return Err(format!("matrix with {} entries", nums.len()));
         }
-        out.push([nums[0], nums[1], nums[2], nums[3], nums[4], nums[5]]);
+        let m = [nums[0], nums[1], nums[2], nums[3], nums[4], nums[5]];
+        match out.iter_mut().find(|g| g.0 == href) {
+            Some(g) => g.1.push(m),
+            None => out.push((href, vec![m])),
+        }
     }
     Ok(out)
 }
 
-fn check_svg<S: Crystal>(s: &S, at: &str, step: u64, viol: &mut Vec<Violation>) -> Result<(), String> {
-    let mut buf: Vec<u8> = vec![];
-    svg::write(&mut buf, &s.as_svg()).map_err(|e| format!("svg::write: {}", e))?;
-    let text = String::from_utf8(buf).map_err(|e| e.to_string())?;
-    let uses = match svg_mol_uses(&text) {
-        Ok(u) => u,
-        Err(e) => return Err(format!("cannot recognise the SVG structure: {}", e)),
-    };
-    if uses.is_empty() {
-        return Err("cannot recognise the SVG structure: no <use href=\"#mol\">".into());
-    }
-    let (va, vb) = geom::lattice(s);
-    let size = va[0].abs().max(vb[0].abs()).max(vb[1].abs()).max(1.0);
-    let tol = 1e-9 * (1.0 + size);
-    let carts: Vec<Aff> = s.cart().iter().map(aff).collect();
-    // expected: (a b c d e f) = (m00 m10 m01 m11 m02 m12)
-    let mut expected: Vec<([f64; 6], bool)> = vec![];
-    for t in &carts {
-        for n in -1..=1i64 {
-            for m in -1..=1i64 {
-                let sx = n as f64 * va[0] + m as f64 * vb[0];
-                let sy = m as f64 * vb[1];
-                expected.push(([t[0][0], t[1][0], t[0][1], t[1][1], t[0][2] + sx, t[1][2] + sy], n == 0 && m == 0));
-            }
-        }
-    }
+/// the first mismatch between one group of <use> elements and the expected placements
+fn svg_group_mismatch(uses: &[[f64; 6]], expected: &[([f64; 6], bool)], tol: f64, carts: usize, at: &str, step: u64) -> Option<Violation> {
     if uses.len() != expected.len() {
-        viol.push(Violation::new(
+        return Some(Violation::new(
             "svg-wrong-number-of-copies",
             step,
-            format!("{}: the SVG places the shape {} times; {} copies x 9 (the cell and its 8 nearest images) = {} expected", at, uses.len(), carts.len(), expected.len()),
+            format!("{}: the SVG places the shape {} times; {} copies x 9 (the cell and its 8 nearest images) = {} expected", at, uses.len(), carts, expected.len()),
         ));
-        return Ok(());
     }
     let mut used = vec![false; uses.len()];
-    for (e, base) in &expected {
+    for (e, base) in expected {
         let mut found = false;
         for (k, u) in uses.iter().enumerate() {
             if used[k] {
@@ -145,18 +129,80 @@ fn check_svg<S: Crystal>(s: &S, at: &str, step: u64, viol: &mut Vec<Violation>) 
             }
         }
         if !found {
-            viol.push(Violation::new(
+            return Some(Violation::new(
                 "svg-placement-missing",
                 step,
                 format!(
                     "{}: no <use> in the SVG has transform matrix({:e} {:e} {:e} {:e} {:e} {:e}) ({} of the state); e.g. first <use> is matrix({:?})",
-                    at, e[0], e[1], e[2], e[3], e[4], e[5], if *base { "a Cartesian placement" } else { "a nearest lattice image" }, uses[0]
+                    at, e[0], e[1], e[2], e[3], e[4], e[5], if *base { "a Cartesian placement" } else { "a nearest lattice image" }, uses.first()
                 ),
             ));
-            return Ok(());
         }
     }
+    None
+}
+
+fn check_svg<S: Crystal>(s: &S, at: &str, step: u64, viol: &mut Vec<Violation>) -> Result<(), String> {
+    let mut buf: Vec<u8> = vec![];
+    svg::write(&mut buf, &s.as_svg()).map_err(|e| format!("svg::write: {}", e))?;
+    let text = String::from_utf8(buf).map_err(|e| e.to_string())?;
+    // a document that positions things through transforms on groups is beyond this reader: it
+    // decides nothing about it (and says so in the evidence) rather than guessing
+    if text.contains("<g") && text.split("<g").skip(1).any(|t| t.split('>').next().map(|tag| tag.contains(" transform=")).unwrap_or(false)) {
+        SVG_NOT_UNDERSTOOD.with(|c| c.set(c.get() + 1));
+        return Ok(());
+    }
+    let groups = match svg_uses(&text) {
+        Ok(u) => u,
+        Err(_) => {
+            SVG_NOT_UNDERSTOOD.with(|c| c.set(c.get() + 1));
+            return Ok(());
+        }
+    };
+    let (va, vb) = geom::lattice(s);
+    let size = va[0].abs().max(vb[0].abs()).max(vb[1].abs()).max(1.0);
+    let tol = 1e-9 * (1.0 + size);
+    let carts: Vec<Aff> = s.cart().iter().map(aff).collect();
+    // expected: (a b c d e f) = (m00 m10 m01 m11 m02 m12)
+    let mut expected: Vec<([f64; 6], bool)> = vec![];
+    for t in &carts {
+        for n in -1..=1i64 {
+            for m in -1..=1i64 {
+                let sx = n as f64 * va[0] + m as f64 * vb[0];
+                let sy = m as f64 * vb[1];
+                expected.push(([t[0][0], t[1][0], t[0][1], t[1][1], t[0][2] + sx, t[1][2] + sy], n == 0 && m == 0));
+            }
+        }
+    }
+    if groups.is_empty() {
+        viol.push(Violation::new("svg-placement-missing", step, format!("{}: the SVG contains no <use> element with a transform: the shape is placed nowhere", at)));
+        return Ok(());
+    }
+    // some group of <use> elements (all referring to one definition) must be exactly the expected
+    // placements; the one reported on failure is the group called "#mol" if there is one, else
+    // the largest
+    let mut first: Option<Violation> = None;
+    let mut order: Vec<usize> = (0..groups.len()).collect();
+    order.sort_by_key(|k| (groups[*k].0 != "#mol", std::cmp::Reverse(groups[*k].1.len())));
+    for k in order {
+        match svg_group_mismatch(&groups[k].1, &expected, tol, carts.len(), at, step) {
+            None => return Ok(()),
+            Some(v) => {
+                if first.is_none() {
+                    first = Some(v);
+                }
+            }
+        }
+    }
+    if let Some(v) = first {
+        viol.push(v);
+    }
     Ok(())
+}
+
+std::thread_local! {
+    /// SVG documents this reader could not interpret (evidence probe)
+    pub static SVG_NOT_UNDERSTOOD: std::cell::Cell<u64> = std::cell::Cell::new(0);
 }
 
 struct Mon<S: Crystal> {
@@ -243,6 +289,7 @@ fn exec<S: Crystal>(initial: S, sc: &Scenario, every: u64, phase: u64, fork_at: 
     out.count("probe.crash_points", crash_points + 1);
     out.count("probe.restart_equivalence_forks", forks);
     out.count("probe.svg_documents_checked", crash_points + 1);
+    out.count("probe.svg_documents_not_understood(nothing decided)", SVG_NOT_UNDERSTOOD.with(|c| c.replace(0)));
     for v in viol {
         out.violate(v);
     }
